@@ -208,3 +208,80 @@ def corpus(chk, tier, sound_only=False):
     if not cases and not sound_only:
         raise HarnessError("no corpus program finished in the machine")
     return cases
+
+
+# ---------------------------------------------------------------------------
+# sample programs with event handlers under seeded event sequences (C15)
+
+KEYS_EV = ["a", "ArrowLeft", " ", "ä", "Enter", "x"]
+ALL_EVENTS = ["down", "up", "move", "key", "input", "animate"]
+
+
+def _event(name, rnd, clock):
+    if name in ("down", "up", "move"):
+        return {"ev": name, "args": [rnd.randrange(0, 201) / 2, rnd.randrange(0, 201) / 2]}
+    if name == "key":
+        return {"ev": name, "args": [rnd.choice(KEYS_EV)]}
+    if name == "input":
+        return {"ev": name, "args": [rnd.choice(["sliderx", "slidery", "s1"]), rnd.choice(["5", "50", "abc", "100", ""])]}
+    clock[0] += rnd.choice([16, 17, 33])
+    return {"ev": "animate", "args": [clock[0]]}
+
+
+def samples(chk, tier):
+    """Sample programs of the repository that declare event handlers: real parser -> specification tree
+    -> machine, with event sequences drawn from the seed; returns replay cases."""
+    import glob
+    import json
+    import random
+    from .common import HarnessError
+    rnd = random.Random(common.seed())
+    files = []
+    for pat in ("frontend/play/samples/**/*.evy", "frontend/lab/samples/**/*.evy"):
+        files += glob.glob(os.path.join(common.REPO, pat), recursive=True)
+    progs = []
+    for p in sorted(files):
+        text = open(p, encoding="utf-8").read()
+        hs = re.findall(r"(?m)^on\s+(\w+)", text)
+        if hs:
+            progs.append((os.path.relpath(p, common.REPO), text, hs))
+    if len(progs) < 10:
+        raise HarnessError("only %d sample programs with event handlers found" % len(progs))
+    nseq, length, cap = (2, 8, 6000) if tier == "quick" else (12, 20, 40000)
+    tmp = common.scratch("samples-in")
+    inp = os.path.join(tmp, "in.ndjson")
+    src = {}
+    with open(inp, "w", encoding="utf-8") as f:
+        for rel, text, hs in progs:
+            for k in range(nseq):
+                clock = [0]
+                evs = [_event(rnd.choice(hs) if rnd.random() < 0.8 else rnd.choice(ALL_EVENTS), rnd, clock)
+                       for _ in range(length)]
+                cid = "%s#%d" % (rel, k)
+                src[cid] = text
+                f.write(json.dumps({"id": cid, "src": text, "inputs": ["5", "hello"], "events": evs}) + "\n")
+    cases_path = os.path.join(tmp, "examples.ndjson")
+    skipped_path = os.path.join(tmp, "skipped.ndjson")
+    r = common.harness_cmd(["export-ast", "-in", inp, "-out", cases_path, "-skipped", skipped_path])
+    if r.returncode != 0:
+        raise HarnessError("export-ast failed: " + r.stderr[-2000:])
+    nskip = sum(1 for l in open(skipped_path, encoding="utf-8") if l.strip())
+    res = common.run_tlc("DocExamples", "DocExamples.cfg", extra_files=[(cases_path, "examples.ndjson")], timeout=3000,
+                         defines={"MAXSTEPS": str(cap)}, name="samples")
+    chk.add_tlc(res, "DocExamples(samples with handlers)")
+    if res.violation:
+        raise HarnessError("DocExamples(samples): " + res.violation)
+    cases = []
+    delivered = 0
+    for n, c in enumerate(res.cases):
+        if c["soundOnly"]:
+            continue
+        x = {k: v for k, v in c.items() if k not in ("srcs", "tag")}
+        x.update(id="sample-%d" % n, stage="run", src=[src[c["class"]]], layout="sample", **{"class": "sample/" + c["class"]})
+        delivered += len(c["events"])
+        cases.append(x)
+    chk.extra["sample_programs_with_handlers"] = {
+        "programs": len(progs), "event_sequences": len(src), "numbers_outside_the_exact_model": nskip,
+        "left_the_model (rand, hsl, font, sqrt ...)": sum(1 for c in res.cases if c["soundOnly"]),
+        "replayed": len(cases), "events_delivered_in_replayed_cases": delivered}
+    return cases
